@@ -161,28 +161,38 @@ def usesite_case(ctx, idx, res):
     try:
         for j in range(12):
             g = gen_xpath.Gen(r, info, {}, max_depth=2)
-            pat = gen_xpath.gen_pattern(g, allow_id=False)
-            try:
-                alts = X.parse_pattern(pat)
-            except X.XPathSyntaxError:
-                continue
-            if any(X.static_errors(a, xslt=False, namespaces=NS) for a in alts):
-                continue
-            rp = drv.call(cmd='match', doc=h, pattern=pat, ns='\n'.join('%s=%s' % kv for kv in NS.items()))
-            if 'scores' not in rp:
-                continue
-            direct = set()
-            for line in rp['scores'].decode().split('\n'):
-                if line and '/ns:' not in line.split(' ')[0]:
-                    p_, sc = line.rsplit(' ', 1)
-                    if sc != 'none':
-                        direct.add(p_)
+            keyed = r.random() < 0.3
+            if keyed:
+                # a key() pattern: nodes of every kind are keyed (key 'uk' below); what the pattern must match is what it selects as an expression
+                # (key() does not depend on the context), computed in the same transformation
+                pat = "key('uk', %s)" % r.choice(["'0'", "'1'", "'2'", "'a'", "'b'", "''", "'doc'"])
+                if r.random() < 0.5:
+                    pat += r.choice(['/', '//']) + r.choice(['*', 'node()', 'text()', '@*', 'comment()', r.choice(g.names), '*[1]', 'node()[last()]'])
+                direct = None
+            else:
+                pat = gen_xpath.gen_pattern(g, allow_id=False)
+                try:
+                    alts = X.parse_pattern(pat)
+                except X.XPathSyntaxError:
+                    continue
+                if any(X.static_errors(a, xslt=False, namespaces=NS) for a in alts):
+                    continue
+                rp = drv.call(cmd='match', doc=h, pattern=pat, ns='\n'.join('%s=%s' % kv for kv in NS.items()))
+                if 'scores' not in rp:
+                    continue
+                direct = set()
+                for line in rp['scores'].decode().split('\n'):
+                    if line and '/ns:' not in line.split(' ')[0]:
+                        p_, sc = line.rsplit(' ', 1)
+                        if sc != 'none':
+                            direct.add(p_)
             e = gen_xslt.aesc(pat)
-            xsl = ((gen_xslt.HEAD % '') + '<xsl:key name="kp" match="%s" use="\'k\'"/>'
+            ukey = '<xsl:key name="uk" match="node()|@*|/" use="%s"/>' % r.choice(['name()', 'count(preceding-sibling::node()) mod 3', 'string-length(.) mod 2', 'count(*)', 'local-name()'])
+            xsl = ((gen_xslt.HEAD % '') + ukey + ('<xsl:key name="kp" match="*" use="\'no\'"/>' if keyed else '<xsl:key name="kp" match="%s" use="\'k\'"/>' % e) +
                    '<xsl:template match="/"><out><t><xsl:apply-templates select="//node()|//@*|/" mode="m"/></t><k><xsl:for-each select="key(\'kp\',\'k\')"><h p="{%s}"/></xsl:for-each></k>'
-                   '<c><xsl:for-each select="//node()|//@*"><n p="{%s}"><xsl:number count="%s"/></n></xsl:for-each></c></out></xsl:template>'
+                   '<c><xsl:for-each select="//node()|//@*"><n p="{%s}"><xsl:number count="%s"/></n></xsl:for-each></c><d>%s</d></out></xsl:template>'
                    '<xsl:template match="%s" mode="m" priority="5"><h p="{%s}"/></xsl:template><xsl:template match="node()|@*|/" mode="m" priority="-5"/></xsl:stylesheet>'
-                   % (e, NODE_KEY, NODE_KEY, e, e, NODE_KEY))
+                   % (NODE_KEY, NODE_KEY, e, ('<xsl:for-each select="%s"><h p="{%s}"/></xsl:for-each>' % (e, NODE_KEY)) if keyed else '', e, NODE_KEY))
             rx = runner.transform(xsl, xml)
             res.evals += 1
             payload = {'pattern': pat, 'document': xml, 'stylesheet': xsl}
@@ -200,7 +210,10 @@ def usesite_case(ctx, idx, res):
                         k = dict((a.local, a.value) for a in c.attrs)['p']
                         got.add(ident[k].path() if k in ident else '?' + k)
                 return got
-            for site, el in (('template', parts['t']), ('key', parts['k'])):
+            if keyed:
+                direct = paths(parts['d'])
+                res.count('usesite_key_patterns')
+            for site, el in (('template', parts['t']),) + ((('key', parts['k']),) if not keyed else ()):
                 got = paths(el)
                 if got != direct:
                     diff = sorted(got ^ direct)
@@ -393,7 +406,7 @@ def main():
     n = 400 if chk.tier == 'quick' else 20000
     chk.run_cases('c09', 'case', range(n))
     chk.run_cases('c09', 'usesite_case', range(n // 2))
-    chk.finish(min_nontrivial=200, required_stats=('node_tests', 'patterns_matching_something', 'usesite_template_agrees', 'usesite_key_agrees', 'usesite_number_agrees'))
+    chk.finish(min_nontrivial=200, required_stats=('node_tests', 'patterns_matching_something', 'usesite_template_agrees', 'usesite_key_agrees', 'usesite_number_agrees', 'usesite_key_patterns'))
 
 
 if __name__ == '__main__':
